@@ -127,6 +127,8 @@ def run_check(pid, main, argv=None):
     a = ap.parse_args(argv)
     chk = Check(pid, a.tier, a.seed)
     try:
+        from . import gen
+        gen.trace_dir()
         main(chk, a)
         rc = chk.finish(getattr(main, 'level', 'model_checking'))
     except MachineryError as e:
